@@ -625,6 +625,9 @@ func c01Run(c *sim.Ctx) {
 	cs := c.Case
 	d, err := newPoolDriver(c)
 	if err != nil {
+		if pdConfigRejected(c, err) {
+			return // no verdict: the configuration does not exist
+		}
 		panic(fmt.Sprintf("c01: cannot build %s: %v", cs.Variant, err))
 	}
 	w := &c01world{c: c, d: d, caps: d.Caps(), units: d.Units(), uidx: map[string]int{}, nsub: int(cs.Knob("nsub", 3))}
